@@ -12,7 +12,7 @@ PROP = dict(
         "C15_next_after_mark_complete", "C15_completion_status", "C15_completion_advances",
         "C15_orderly_run_completes",
     ],
-    suites=["pipeline"],
+    suites=["pipeline", "syspipe"],
     level_text="Machine-checked Lean theorems for every number of stages and EVERY finite sequence of `jade pipeline submit` / "
                "`jade pipeline submit-next-stage --stage-num=k --return-code=r` commands (duplicates, out-of-order, before the "
                "start, after completion; any integer k and r; any behaviour of auto-config and run_submit_jobs per call) — "
@@ -22,12 +22,24 @@ PROP = dict(
                "acceptance test, both list indices, the completion test), and the completion tail of "
                "JobSubmitter._handle_completion (order of mark_complete and the next-stage command, guard, next_stage "
                "expression, command template).  Tied to the code by differential testing through the real click commands on "
-               "real pipeline directories, and through the real run_submit_jobs / Cluster / _handle_completion for the glue.",
+               "real pipeline directories, and through the real run_submit_jobs / Cluster / _handle_completion for the glue.  "
+               "SYSTEM level (suite `syspipe`): whole pipelines of 1-4 stages run through the real `jade pipeline submit`, the real "
+               "per-stage submissions (batches, node processes, try-submit-jobs) and the real `submit-next-stage` child "
+               "processes under the deterministic cluster simulation, with seeded schedules, in a fault-free and a fault mode "
+               "(squeue outage, lifecycle command that cannot be started, killed submitter / hand-off process, lost batch, "
+               "sbatch outage, repeated hand-off command); the property's sentence is evaluated directly on the observed "
+               "events and on pipeline.json after every step, and every history is projected to the model's command "
+               "sequence and compared (result, persisted state, hand-over per command).",
     level_note="Trusted: Lean kernel (+propext, Classical.choice, Quot.sound), tools/extract.py + tools/sites/pipeline.py, the "
                "`pipeline` correspondence suite (fakes: the auto-config commands and the `jade pipeline submit-next-stage` child "
                "process at the subprocess boundary of jade.utils.run_command — the child is executed in-process through the "
                "real click group; JobSubmitter.run_submit_jobs stubbed inside jade.jobs.pipeline_manager for op pipeline.run, "
-               "only JobSubmitter.submit_jobs replaced for op pipeline.completion).  Sequential model: one command at a time.",
+               "only JobSubmitter.submit_jobs replaced for op pipeline.completion); for `syspipe` harness/vcluster.py + "
+               "harness/vpipeline.py (fake sbatch/squeue/scancel/job processes/hook and config commands, cooperative lock, "
+               "virtual time; nothing of JADE stubbed) and the projection `project` of harness/suites/syspipe.py.  "
+               "Sequential model: one command at a time; that the real commands never overlap is checked on every history "
+               "(an overlapping history is left to the direct oracle).  Liveness under crashes is not claimed: a completing "
+               "submitter killed between mark_complete and the hand-off strands the pipeline (findings/f15_*).",
     assumptions=[
         "pipeline.json has no lock: safety against two concurrent `submit-next-stage` processes rests on the single "
         "completion of each stage's submission (property C05, proved elsewhere)",
